@@ -7,8 +7,16 @@ run: `BsVerif/Gen/Dr.lean`).  The Intel layout used in the statements (`L G LE G
 down independently of those constants in `BsVerif/Lemmas/Dr.lean`.
 
 Histories are lists of `Op` (add by address / by expression, remove by number / address / expression, thread
-creation and exit, data-breakpoint hits, end-of-scope hits, restart) applied with `run` to the initial system `{}`
-(no watchpoint, one thread, all debug registers zero).
+creation — as one step, or split into the kernel's `spawn` and the two notifications `evClone` / `evStop` the tracer
+may receive in either order, with any commands in between — thread exit, data-breakpoint hits, end-of-scope hits,
+restart of a live debuggee and exit + rerun, both through the index loop of `clear_local_disable_global`) applied
+with `run` to the initial system `{}` (no watchpoint, one thread, all debug registers zero).
+
+`Sys.threads` are the threads the tracer has registered.  A thread in `Sys.newborn` exists in the kernel but has not
+been seen by the tracer: it sits in its initial ptrace-stop, has executed nothing, and carries what Linux gives a
+new thread (`kernelNewThread`: no breakpoint armed, DR0-3 zero, DR7 reading as the parent's; environment assumption,
+probed by the live run); the first notification about it,
+whichever it is, moves it to `Sys.threads` (`C14_new_thread_inherits`).
 
 What is *not* a theorem: delivery of data breakpoints by the CPU/kernel ("every write stops once, old/new value
 reported") — sampled by the live correspondence run.
@@ -138,7 +146,10 @@ theorem C14_dr6_hit_maps_to_slot (d : Nat) :
 /-- every thread of a system -/
 def Sys.threads (s : Sys) : List Img := s.main :: s.others
 
-/-- **Main invariant.**  After ANY history, in EVERY thread: slot i's local-enable bit is set iff some active
+/-- **Main invariant.**  After ANY history — thread creations in it may be single `clone` steps or the kernel's
+`spawn t` followed, at any later points and in either order, by the notifications `evClone t` / `evStop t`; restarts
+may hit a live or a dead process with any mix of scoped and unscoped watchpoints — in EVERY thread the tracer has
+registered (a thread it has not yet seen is stopped, see the header): slot i's local-enable bit is set iff some active
 watchpoint owns slot i, and then DR_i is its address, RW_i its condition, LEN_i its size (Intel encodings); all
 global-enable bits and GE are clear; LE is set iff there is a watchpoint; every watchpoint owns a slot `< 4`, no
 slot has two owners, and there are at most four watchpoints.  (No stale enable bit: an enable bit without an owner
@@ -264,21 +275,73 @@ theorem C14_remove_clears_slot (ops : List Op) (p : Wp → Bool) :
       · exact h
       · exact absurd ((enc.enabled k hk4).1 h) hno
 
-/-- **Threads created later inherit the set**: the register file given to a new thread encodes the watchpoint list -/
-theorem C14_new_thread_inherits (ops : List Op) :
+/-- **Threads created later inherit the set — for every order of the two notifications.**  In any reachable state
+(the history may contain `spawn t` at any point, followed by any commands: adds and removes do not reach a thread
+the tracer does not know), the FIRST notification about an unregistered thread `t` — be it the parent's
+PTRACE_EVENT_CLONE or the child's own PTRACE_EVENT_STOP — registers it with a register file that encodes the
+current watchpoint list (it is `last_seen_state` when there is one); any LATER notification about `t` (the other one
+of the pair, or a PTRACE_EVENT_STOP of an interrupt) finds it registered and changes nothing. -/
+theorem C14_new_thread_inherits (ops : List Op) (t : Nat) (ev : Op) (hev : ev = .evClone t ∨ ev = .evStop t) :
     let s := run {} ops
-    let s' := (step s .clone).2
-    s'.wps = s.wps ∧ ∃ t, s'.others = s.others ++ [t] ∧ Encodes t s.wps ∧
-      (∀ l, s.last = some l → t = l) := by
+    let s' := (step s ev).2
+    (t ∈ s.newborn → s'.wps = s.wps ∧ s'.main = s.main ∧ t ∉ s'.newborn ∧
+      ∃ img, s'.others = s.others ++ [img] ∧ Encodes img s.wps ∧ (∀ l, s.last = some l → img = l)) ∧
+    (t ∉ s.newborn → s' = s) := by
   intro s s'
   have hinv : Inv s := run_inv ops inv_init
-  refine ⟨rfl, s.last.getD {}, rfl, ?_, ?_⟩
-  · cases hl : s.last with
-    | some l => exact hinv.last l hl
-    | none => rw [hinv.lastNone hl]; exact encodes_zero
-  · intro l hl; simp [hl]
+  have hs' : s' = if s.newborn.contains t then register s t else s := by
+    rcases hev with h | h <;> subst h <;> rfl
+  constructor
+  · intro ht
+    have hc : s.newborn.contains t = true := by simpa using ht
+    rw [hs', hc]
+    refine ⟨rfl, rfl, ?_, s.last.getD (kernelNewThread s.main), rfl, ?_, ?_⟩
+    · simp [register]
+    · cases hl : s.last with
+      | some l => exact hinv.last l hl
+      | none =>
+        have hm := hinv.main
+        rw [hinv.lastNone hl] at hm ⊢
+        exact encodes_kernelNew hm
+    · intro l hl; simp [hl]
+  · intro ht
+    have hc : s.newborn.contains t = false := by simpa using ht
+    rw [hs', hc]; rfl
 
+/-- both orders end in the same state, the one the single-step `clone` describes: `spawn t` followed by the two
+notifications in either order (with `t` a fresh thread id) -/
+theorem C14_clone_orders_agree (s : Sys) (t : Nat) (ht : t ∉ s.newborn) :
+    run s [.spawn t, .evClone t, .evStop t] = { (step s .clone).2 with newborn := s.newborn } ∧
+    run s [.spawn t, .evStop t, .evClone t] = { (step s .clone).2 with newborn := s.newborn } := by
+  have hc : s.newborn.contains t = false := by simpa using ht
+  have hf : (s.newborn ++ [t]).filter (· != t) = s.newborn := by
+    rw [List.filter_append]
+    have : s.newborn.filter (· != t) = s.newborn := by
+      apply List.filter_eq_self.2
+      intro x hx; simp only [bne_iff_ne, ne_eq]; rintro rfl; exact ht hx
+    simp [this]
+  let s1 : Sys := { s with newborn := s.newborn ++ [t] }
+  let s2 : Sys := { (step s .clone).2 with newborn := s.newborn }
+  have h1 : (step s (.spawn t)).2 = s1 := by simp only [step, hc]; rfl
+  have hc1 : s1.newborn.contains t = true := by simp [s1]
+  have hr : register s1 t = s2 := by simp only [register, s1, s2, step, hf]
+  have hc2 : s2.newborn.contains t = false := hc
+  have a1 : (step s1 (.evClone t)).2 = s2 := by simp only [step, hc1, if_true]; exact hr
+  have a2 : (step s1 (.evStop t)).2 = s2 := by simp only [step, hc1, if_true]; exact hr
+  have b1 : (step s2 (.evClone t)).2 = s2 := by simp only [step, hc2]; rfl
+  have b2 : (step s2 (.evStop t)).2 = s2 := by simp only [step, hc2]; rfl
+  constructor
+  · show run (step (step (step s (.spawn t)).2 (.evClone t)).2 (.evStop t)).2 [] = s2
+    rw [h1, a1, b2]; rfl
+  · show run (step (step (step s (.spawn t)).2 (.evStop t)).2 (.evClone t)).2 [] = s2
+    rw [h1, a2, b1]; rfl
 
+/-- non-vacuity: a watchpoint is set, a thread is born, a second watchpoint is set while the tracer does not know
+the thread yet, then the child's stop arrives BEFORE the clone event: the thread gets both watchpoints -/
+example :
+    let s := run {} [.addMem 4096 .Bytes8 .DataWrites, .spawn 7, .addMem 8192 .Bytes4 .DataReadsWrites, .evStop 7, .evClone 7]
+    s.others = [s.main] ∧ s.newborn = [] ∧ s.main.a0 = 4096 ∧ s.main.a1 = 8192 ∧ s.wps.length = 2 := by
+  decide +kernel
 
 /-! ## refusals -/
 
@@ -350,6 +413,9 @@ theorem C14_refused_no_side_effect_partial (s : Sys) (op : Op) (e : Err)
   | rmAddr a => simp only [step] at h; unfold rmRes at h; split at h <;> simp at h
   | rmExpr x => simp only [step] at h; unfold rmRes at h; split at h <;> simp at h
   | clone => simp [step] at h
+  | spawn t => simp [step] at h
+  | evClone t => simp [step] at h
+  | evStop t => simp [step] at h
   | threadExit i => simp [step] at h
   | hit t bits =>
     simp only [step] at h
@@ -363,7 +429,7 @@ theorem C14_refused_no_side_effect_partial (s : Sys) (op : Op) (e : Err)
     · split at h
       · split at h <;> simp at h
       · simp at h
-  | restart => simp [step] at h
+  | restart alive => simp only [step] at h; split at h <;> simp at h
 
 /-- witness of the defect: four watchpoints by address, then a fifth on a scoped local (companion at 36864) -/
 def C14_witness : List Op :=
@@ -397,18 +463,81 @@ theorem C14_stale_companion_removes_foreign_counterexample :
 
 /-! ## restart, end of scope -/
 
-/-- **A watchpoint on a global survives a restart**, one on a scoped local does not: after exit/restart the list
-is exactly the unscoped watchpoints, with the same numbers, addresses, sizes and conditions, in the same order,
-and the new process's registers encode it (the main invariant holds again) -/
-theorem C14_global_survives_restart (ops : List Op) :
+/-- **`clear_local_disable_global`, the loop the code has, for EVERY registry content** (any length, any mix and
+order of scoped and unscoped watchpoints, well-formed or not): whenever the index loop — which removes from the
+vector it is iterating — completes, the vector holds exactly the unscoped watchpoints, in their order, each
+hibernated (slot given up when the process is alive, untouched when it is dead), no scoped one, and
+`last_seen_state` is forgotten.  It completes always when the process is dead, and when it is alive as soon as every
+watchpoint owns a slot (otherwise `register.expect("should exist")` panics). -/
+theorem C14_clear_local_disable_global (s : Sys) (alive : Bool) :
+    (∀ s', clearLocalDisableGlobal alive s = some s' →
+      s'.wps = (s.wps.filter (fun w => !w.scoped)).map (hibernated alive) ∧ s'.last = none ∧
+      (∀ w ∈ s'.wps, w.scoped = false) ∧
+      (∀ w ∈ s.wps, w.scoped = false → hibernated alive w ∈ s'.wps) ∧
+      (alive = true → ∀ w ∈ s'.wps, w.hw.reg = none)) ∧
+    ((alive = false ∨ ∀ w ∈ s.wps, w.hw.reg.isSome) → (clearLocalDisableGlobal alive s).isSome) := by
+  constructor
+  · intro s' h
+    obtain ⟨hw, hl⟩ := cldg_spec alive s s' h
+    refine ⟨hw, hl, ?_, ?_, ?_⟩
+    · intro w hm
+      rw [hw] at hm
+      simp only [List.mem_map, List.mem_filter] at hm
+      obtain ⟨x, ⟨_, hx⟩, rfl⟩ := hm
+      rw [hibernated_scoped]; simpa using hx
+    · intro w hm hs
+      rw [hw]
+      exact List.mem_map.2 ⟨w, List.mem_filter.2 ⟨hm, by simp [hs]⟩, rfl⟩
+    · intro ha w hm
+      subst ha
+      rw [hw] at hm
+      simp only [List.mem_map] at hm
+      obtain ⟨x, _, rfl⟩ := hm
+      rfl
+  · intro h
+    obtain ⟨s', hs'⟩ := cldg_total alive s h
+    simp [hs']
+
+/-- non-vacuity, and the inputs that matter: two scoped watchpoints adjacent in the vector, between unscoped ones -/
+example :
+    let s := run {} [.addMem 4096 .Bytes8 .DataWrites, .addExpr 11 45056 8 .DataWrites (some 900000),
+      .addExpr 12 49152 8 .DataWrites (some 900000), .addExpr 5 20480 8 .DataReadsWrites none]
+    (s.wps.map (·.scoped) = [false, true, true, false]) ∧
+    ((clearLocalDisableGlobal true s).map (fun s' => s'.wps.map (fun w => (w.hw.addr, w.hw.reg))) =
+      some [(4096, none), (20480, none)]) ∧
+    ((clearLocalDisableGlobal false s).map (fun s' => s'.wps.map (fun w => (w.hw.addr, w.hw.reg))) =
+      some [(4096, some 0), (20480, some 3)]) := by
+  decide +kernel
+
+/-- **A watchpoint on a global survives a restart**, one on a scoped local does not — whether the debuggee is
+restarted while it runs or has exited and is run again: the step completes (no panic: neither the loop nor the
+`debug_assert!(!wp.scoped())` of `refresh`), the list is exactly the unscoped watchpoints, with the same numbers,
+addresses, sizes and conditions, in the same order, and the new process's registers encode it (the main invariant
+holds again; no thread of the old process is left) -/
+theorem C14_global_survives_restart (ops : List Op) (alive : Bool) :
     let s := run {} ops
-    let s' := (step s .restart).2
+    let s' := (step s (.restart alive)).2
+    (step s (.restart alive)).1 = .done ∧
     s'.wps.map (fun w => (w.num, w.hw.addr, w.hw.size, w.hw.cond, w.expr, w.companion)) =
       (s.wps.filter (fun w => !w.scoped)).map (fun w => (w.num, w.hw.addr, w.hw.size, w.hw.cond, w.expr, w.companion)) ∧
+    (∀ w ∈ s'.wps, w.scoped = false) ∧
     Inv s' := by
   intro s s'
   have hinv : Inv s := run_inv ops inv_init
-  exact ⟨(restart_inv hinv).2, (restart_inv hinv).1⟩
+  obtain ⟨r, hr, hi, hm⟩ := restart_inv hinv alive
+  have e1 : (step s (.restart alive)).1 = .done := by simp only [step, hr]
+  have e2 : s' = r := by show (step s (.restart alive)).2 = r; simp only [step, hr]
+  refine ⟨e1, by rw [e2]; exact hm, ?_, by rw [e2]; exact hi⟩
+  intro w hw
+  rw [e2] at hw
+  have : w.companion ∈ (r.wps.map (fun w => (w.num, w.hw.addr, w.hw.size, w.hw.cond, w.expr, w.companion))).map (·.2.2.2.2.2) := by
+    simp only [List.map_map, List.mem_map]; exact ⟨w, hw, rfl⟩
+  rw [hm] at this
+  simp only [List.map_map, List.mem_map, List.mem_filter] at this
+  obtain ⟨x, ⟨_, hx⟩, hc⟩ := this
+  simp only [Function.comp] at hc
+  simp only [Wp.scoped, ← hc] at hx ⊢
+  simpa using hx
 
 /-- **A watchpoint on a local is removed when execution leaves its scope**: when the companion breakpoint at `a` is
 hit and the hook completes, the watchpoints removed are exactly those listed by that companion (each number: the
@@ -444,5 +573,11 @@ theorem C14_scope_removal (ops : List Op) (a : Nat) (l : List Nat) :
 #guard (step (run {} C14_witness) C14_witness_op).1 = .refused .limitReached
 #guard (step (run {} (C14_witness ++ [.rmNum 2])) (.addMem 1 .Bytes2 .DataWrites)).1 = .added 5 1
 #guard detectAndFlush 0xFFFF0FF6 = (some 1, 0xFFFF0FF4)
+-- restart with two adjacent locals between globals: the new process holds the two globals in slots 0 and 1
+#guard (run {} [.addMem 4096 .Bytes8 .DataWrites, .addExpr 11 45056 8 .DataWrites (some 900000),
+  .addExpr 12 49152 8 .DataWrites (some 900000), .addExpr 5 20480 8 .DataReadsWrites none, .clone, .restart true]).wps.map
+    (fun w => (w.hw.addr, w.hw.reg)) = [(4096, some 0), (20480, some 1)]
+#guard (run {} [.addMem 4096 .Bytes8 .DataWrites, .addExpr 11 45056 8 .DataWrites (some 900000),
+  .addExpr 12 49152 8 .DataWrites (some 900000), .restart false]).main.dr7 = 0x90101
 
 end BsVerif.Dr
